@@ -36,6 +36,33 @@ def run(ctx):
             cases.append(('key_secret %d' % d, keydump(lambda: Key(b)), True))
             cases.append(('key_secret %d' % d, keydump(lambda: Key(b.hex())), True))
             cases.append(('key_secret %d' % d, keydump(lambda: HDKey(b, chain=b'\1' * 32) if d else HDKey(b, chain=b'\1' * 32)), True))
+    # the same scalars handed over as WIF text (built here, Base58Check by hand), compressed and uncompressed: still the key of that
+    # scalar - in particular when the LAST byte of the secret is 01 (the byte that marks compression when it FOLLOWS the 32 bytes) or 00
+    import hashlib as _hl
+    _B58 = '123456789ABCDEFGHJKLMNPQRSTUVWXYZabcdefghijkmnopqrstuvwxyz'
+
+    def _b58check(b):
+        b = b + _hl.sha256(_hl.sha256(b).digest()).digest()[:4]
+        n_, s_ = int.from_bytes(b, 'big'), ''
+        while n_:
+            n_, r_ = divmod(n_, 58)
+            s_ = _B58[r_] + s_
+        return '1' * (len(b) - len(b.lstrip(b'\0'))) + s_
+    wif_scalars = [0x101, 0x100, 1, 0xff01, (1 << 255) | 1, N - 0x40, N - 0x41, (rng.randrange(1, N >> 8) << 8) | 1, (rng.randrange(1, N >> 8) << 8)]
+    wif_scalars += [d for d in scalars if 0 < d < N][-(20 if T else 6):]
+    for d in wif_scalars:
+        for comp_ in (False, True):
+            wif_ = _b58check(b'\x80' + d.to_bytes(32, 'big') + (b'\x01' if comp_ else b''))
+            ctx.count('scalar-as-wif:%s:last-byte-%s' % ('compressed' if comp_ else 'uncompressed', {0: '00', 1: '01'}.get(d & 0xff, 'other')))
+            cases.append(('key_secret %d' % d, keydump(lambda: Key(wif_)), True))
+            k_ = None
+            try:
+                k_ = Key(wif_)
+            except Exception:
+                pass
+            if k_ is not None and (k_.compressed != comp_ or k_.secret != d):
+                ctx.violation('a WIF imports as another scalar or with another compression flag', {'op': 'key_secret %d' % d, 'wif': wif_,
+                                                                                                  'observed_secret': k_.secret, 'observed_compressed': k_.compressed})
     ctx.compare(cases, 'scalar')
     # 64-byte "hexadecimal private keys" (pinned by tests/test_keys.py::test_private_key_import_hex): listed finding F09b
     cases = []
